@@ -276,7 +276,7 @@ register(Obligation("verif.axis.Timeofday.compute_from_times#POST:definition", (
 
 def _leadtimeday():
     def setup(G):
-        return Bag(x=G.num("x", numpy=True))
+        return Bag(x=G.num("x", numpy=True, grid=[0.0, 6.0, 13.0, 23.5, 24.0, 30.5, 47.0, 48.0, -5.0, -30.0]))
 
     def call(inp):
         return verif.axis.Leadtimeday().compute_from_leadtimes([inp.x])
